@@ -1,0 +1,228 @@
+//go:build verif
+
+// Verification hook (build tag "verif"): the six socket constructors of this package
+// backed by an in-memory Ethernet segment per interface index. The verification harness
+// injects frames into the segment and taps what the daemons send. Nothing in here is
+// compiled without the tag.
+package rsocks
+
+import (
+	"fmt"
+	"net"
+	"os"
+	"sync"
+)
+
+// Frame is what travels on the virtual segment.
+type Frame struct {
+	Proto   uint16 // 0x0800 (IP) or 0x0806 (ARP)
+	L2Dst   net.HardwareAddr
+	Payload []byte
+	Local   bool // written by a local send socket
+}
+
+// Kinds of sockets, used for the open/close counters and the fault plan.
+const (
+	KindIPRecv = iota
+	KindARPRecv
+	KindIPSend
+	KindUnicastSend
+	KindARPSend
+	NumKinds
+)
+
+// Segment is one virtual Ethernet segment.
+type Segment struct {
+	mu   sync.Mutex
+	recv map[*RecvSock]struct{}
+	// Tap receives every frame written by a local send socket.
+	Tap chan Frame
+	// OnSend, if set, is called synchronously (without the segment lock held) for every frame
+	// written by a local send socket, after it was looped back to the local receive sockets.
+	OnSend func(Frame)
+
+	Opens  [NumKinds]int
+	Closes [NumKinds]int
+
+	// Fault plan: the n-th (1-based) socket creation / write / read on this segment fails.
+	// Zero disables.
+	FailOpenAt  int
+	FailWriteAt int
+	FailReadAt  int
+	nOpen       int
+	nWrite      int
+	nRead       int
+}
+
+var (
+	segMu sync.Mutex
+	segs  = map[int]*Segment{}
+)
+
+// Seg returns (creating it if needed) the segment of an interface.
+func Seg(iface *net.Interface) *Segment {
+	segMu.Lock()
+	defer segMu.Unlock()
+	s := segs[iface.Index]
+	if s == nil {
+		s = &Segment{recv: map[*RecvSock]struct{}{}, Tap: make(chan Frame, 65536)}
+		segs[iface.Index] = s
+	}
+	return s
+}
+
+// ResetSeg forgets the segment of an interface.
+func ResetSeg(iface *net.Interface) {
+	segMu.Lock()
+	delete(segs, iface.Index)
+	segMu.Unlock()
+}
+
+// Inject delivers a frame from a remote host to all local receive sockets of that protocol.
+func (s *Segment) Inject(proto uint16, payload []byte) {
+	s.deliver(Frame{Proto: proto, Payload: payload})
+}
+
+// Counters returns a snapshot of the open and close counters and the number of receive
+// sockets still registered.
+func (s *Segment) Counters() (opens, closes [NumKinds]int, liveRecv int) {
+	s.mu.Lock()
+	defer s.mu.Unlock()
+	return s.Opens, s.Closes, len(s.recv)
+}
+
+func (s *Segment) deliver(f Frame) {
+	s.mu.Lock()
+	defer s.mu.Unlock()
+	for r := range s.recv {
+		if r.proto == f.Proto {
+			p := append([]byte(nil), f.Payload...)
+			select {
+			case r.ch <- p:
+			default: // queue full: drop, like the kernel
+			}
+		}
+	}
+}
+
+func (s *Segment) openFails() bool {
+	s.nOpen++
+	return s.FailOpenAt != 0 && s.nOpen == s.FailOpenAt
+}
+
+type RecvSock struct {
+	seg    *Segment
+	kind   int
+	proto  uint16
+	ch     chan []byte
+	closed chan struct{}
+	once   sync.Once
+}
+
+func (r *RecvSock) Read(b []byte) (int, error) {
+	r.seg.mu.Lock()
+	r.seg.nRead++
+	fail := r.seg.FailReadAt != 0 && r.seg.nRead == r.seg.FailReadAt
+	r.seg.mu.Unlock()
+	if fail {
+		return 0, fmt.Errorf("vnet: injected read failure")
+	}
+	select {
+	case p := <-r.ch:
+		return copy(b, p), nil
+	case <-r.closed:
+		return 0, os.ErrClosed
+	}
+}
+
+func (r *RecvSock) Close() error {
+	r.once.Do(func() {
+		close(r.closed)
+		r.seg.mu.Lock()
+		delete(r.seg.recv, r)
+		r.seg.Closes[r.kind]++
+		r.seg.mu.Unlock()
+	})
+	return nil
+}
+
+func getRecv(iface *net.Interface, kind int, proto uint16) (*RecvSock, error) {
+	s := Seg(iface)
+	s.mu.Lock()
+	defer s.mu.Unlock()
+	if s.openFails() {
+		return nil, fmt.Errorf("vnet: injected socket failure")
+	}
+	r := &RecvSock{seg: s, kind: kind, proto: proto, ch: make(chan []byte, 1024), closed: make(chan struct{})}
+	s.recv[r] = struct{}{}
+	s.Opens[kind]++
+	return r, nil
+}
+
+func GetIPRecvSock(iface *net.Interface) (*RecvSock, error) {
+	return getRecv(iface, KindIPRecv, 0x0800)
+}
+func GetARPRecvSock(iface *net.Interface) (*RecvSock, error) {
+	return getRecv(iface, KindARPRecv, 0x0806)
+}
+
+type SendSock struct {
+	seg   *Segment
+	kind  int
+	proto uint16
+	dst   net.HardwareAddr
+	once  sync.Once
+}
+
+func getSend(iface *net.Interface, kind int, proto uint16, hw net.HardwareAddr) (*SendSock, error) {
+	s := Seg(iface)
+	s.mu.Lock()
+	defer s.mu.Unlock()
+	if s.openFails() {
+		return nil, fmt.Errorf("vnet: injected socket failure")
+	}
+	s.Opens[kind]++
+	return &SendSock{seg: s, kind: kind, proto: proto, dst: append(net.HardwareAddr(nil), hw...)}, nil
+}
+
+var bcastAddr = net.HardwareAddr{0xff, 0xff, 0xff, 0xff, 0xff, 0xff}
+
+func GetIPSendSock(iface *net.Interface) (*SendSock, error) {
+	return getSend(iface, KindIPSend, 0x0800, bcastAddr)
+}
+func GetUnicastSendSock(iface *net.Interface, hw net.HardwareAddr) (*SendSock, error) {
+	return getSend(iface, KindUnicastSend, 0x0800, hw)
+}
+func GetARPSendSock(iface *net.Interface) (*SendSock, error) {
+	return getSend(iface, KindARPSend, 0x0806, bcastAddr)
+}
+
+func (w *SendSock) Write(p []byte) (int, error) {
+	w.seg.mu.Lock()
+	w.seg.nWrite++
+	fail := w.seg.FailWriteAt != 0 && w.seg.nWrite == w.seg.FailWriteAt
+	cb := w.seg.OnSend
+	w.seg.mu.Unlock()
+	if fail {
+		return 0, fmt.Errorf("vnet: injected write failure")
+	}
+	f := Frame{Proto: w.proto, L2Dst: w.dst, Payload: append([]byte(nil), p...), Local: true}
+	w.seg.deliver(f) // PACKET_OUTGOING: local packet sockets see our own frames too
+	select {
+	case w.seg.Tap <- f:
+	default:
+	}
+	if cb != nil {
+		cb(f)
+	}
+	return len(p), nil
+}
+
+func (w *SendSock) Close() error {
+	w.once.Do(func() {
+		w.seg.mu.Lock()
+		w.seg.Closes[w.kind]++
+		w.seg.mu.Unlock()
+	})
+	return nil
+}
